@@ -78,7 +78,10 @@ def sensitivity():
 
 
 def seeded():
-    lines = ['| id | change (authored by a fresh sub-agent that saw only the property text) | needs | result |', '|---|---|---|---|']
+    metas = [json.load(open(m)) for m in sorted(glob.glob(os.path.join(HOME, 'seeded', '*', 'meta.json')))]
+    missed = [m for m in metas if m.get('result', '').startswith('MISSED')]
+    lines = [f"{len(metas)} confirmed changes; {len(metas) - len(missed)} detected by the check as it stood, {len(missed)} missed at first (all detected after the extension described in the result column, except where it says otherwise).", '',
+             '| id | change (authored by a fresh sub-agent that saw only the property text) | needs | result |', '|---|---|---|---|']
     for d in sorted(glob.glob(os.path.join(HOME, 'seeded', '*'))):
         mp = os.path.join(d, 'meta.json')
         if not os.path.exists(mp):
